@@ -71,7 +71,7 @@ def run(tier: str) -> int:
     for _ in range(40 if tier == "quick" else 400):
         bounds, prec, rem = sh.random_space(rng, max_dims=4)
         jobs.append({"name": "BestBatchSampler", "bounds": bounds, "prec": prec, "rem": rem, "bs": rng.randint(1, 4),
-                     "seed": rng.randrange(2**31), "ncalls": 3, "rseed": rng.randrange(2**31), "extreme": rng.random() < 0.3})
+                     "seed": rng.randrange(2**31), "ncalls": 3, "rseed": rng.randrange(2**31), "extreme": rng.random() < 0.5})
     results = sh.run_jobs(jobs)
     results.append(stub_events(tier, rng))
     return c03.finish(chk, results, {"sample", "bestbatch", "select"},
